@@ -27,6 +27,7 @@ mod c16;
 mod c17;
 mod c18;
 mod c19;
+mod c20;
 
 use report::{machinery, Report, Tier};
 
@@ -86,6 +87,7 @@ fn main() {
         "C17" => c17::run(&ctx, &mut rep),
         "C18" => c18::run(&ctx, &mut rep),
         "C19" => c19::run(&ctx, &mut rep),
+        "C20" => c20::run(&ctx, &mut rep),
         _ => machinery(&format!("no check registered for {id}")),
     }
     rep.finish();
